@@ -9,9 +9,11 @@ mode `out`
   `file <0|1 append> <old|none> <L> <line>*` -> `<bytes>` | `none`     (`Out.fileAfter`)
   `split <bytes>`                          -> `lines <line>* | <rest>` (`Out.splitNl`)
   `owner <hash> <n>`                       -> rank | `trap`            (`Out.owner`)
+  `pack <tok>*`                            -> line (`Out.pack`; tok = s:<hex> n:<nat> b:<0|1> m:<manipulator>)
   `date <ts>`                              -> `<y> <m> <d> <path as text>` (`Out.civilFromDays`, `Out.datePath`)
 
 mode `ser`
+  `fname <prefix> <rank>`                  -> file name (`Ser.rankFileName`)
   `esc <bytes>`                            -> token                    (`Ser.escape`)
   `unesc <token>`                          -> bytes | `err`            (`Ser.unescape`)
   `load <token>`                           -> bytes | `err`            (`Ser.cLoad`)
@@ -76,6 +78,19 @@ def handleOut (line : String) : String :=
     match h.toNat?, n.toNat? with
     | some h, some n => if n = 0 then "trap" else toString (Out.owner (fun (x : Nat) => x) n h)
     | _, _ => "bad-op"
+  | "pack" :: rest =>
+    -- tokens: s:<hex> n:<nat> b:<0|1> m:<hex|dec|oct|boolalpha|noboolalpha>
+    let tok (w : String) : Option Out.Tok :=
+      match w.splitOn ":" with
+      | ["s", h] => (unhex h).map Out.Tok.str
+      | ["n", v] => v.toNat?.map Out.Tok.nat
+      | ["b", v] => some (Out.Tok.bool (v != "0"))
+      | ["m", "hex"] => some .hex | ["m", "dec"] => some .dec | ["m", "oct"] => some .oct
+      | ["m", "boolalpha"] => some .boolalpha | ["m", "noboolalpha"] => some .noboolalpha
+      | _ => none
+    match rest.mapM tok with
+    | some ts => hex (Out.pack ts)
+    | none => "bad-op"
   | ["date", t] =>
     match t.toNat? with
     | some ts =>
@@ -101,6 +116,10 @@ def parseDisc (w : String) : Option YgmVerif.Ser.Disc :=
 open YgmVerif in
 def handleSer (line : String) : String :=
   match words line with
+  | ["fname", pre, r] =>
+    match unhex pre, r.toNat? with
+    | some p, some r => hex (Ser.rankFileName p r)
+    | _, _ => "bad-op"
   | ["esc", b] =>
     match unhex b with
     | some bs => hex (Ser.escape bs)
